@@ -1065,6 +1065,8 @@ fn is_query(op: EOp) -> bool {
 }
 
 struct LoopResult {
+    /// per reader: passes over its program that fell inside one call of the cycling thread (step index, answers)
+    windows: Vec<Windows>,
     /// a return value of the cycling thread that differs from the specification's (step index, got)
     mutator_bad: Option<(usize, String)>,
     final_digest: String,
@@ -1074,6 +1076,8 @@ struct LoopResult {
     reads: u64,
     stuck: bool,
 }
+
+type Windows = BTreeSet<(usize, Vec<String>)>;
 
 fn run_loop(setup: &[EOp], cycle: &[EOp], readers: &[Vec<EOp>], expect: &[String], budget: Duration) -> LoopResult {
     let keys = enum_keys();
@@ -1093,9 +1097,11 @@ fn run_loop(setup: &[EOp], cycle: &[EOp], readers: &[Vec<EOp>], expect: &[String
     let go = Arc::new(AtomicBool::new(false));
     let cycles = Arc::new(AtomicUsize::new(0));
     let reads = Arc::new(AtomicUsize::new(0));
-    let mut joins = Vec::new();
+    // number of calls the cycling thread has completed (published after each call returns)
+    let done = Arc::new(AtomicUsize::new(0));
+    let mut joins: Vec<std::thread::JoinHandle<(Vec<BTreeSet<String>>, Windows)>> = Vec::new();
     {
-        let (reg, log, stop, go, cycles, keys, cycle, expect) = (real.reg.clone(), real.log.clone(), stop.clone(), go.clone(), cycles.clone(), keys.clone(), cycle.to_vec(), expect.to_vec());
+        let (reg, log, stop, go, cycles, keys, cycle, expect, done) = (real.reg.clone(), real.log.clone(), stop.clone(), go.clone(), cycles.clone(), keys.clone(), cycle.to_vec(), expect.to_vec(), done.clone());
         joins.push(std::thread::spawn(move || {
             while !go.load(Ordering::Acquire) {
                 std::hint::spin_loop();
@@ -1110,28 +1116,43 @@ fn run_loop(setup: &[EOp], cycle: &[EOp], readers: &[Vec<EOp>], expect: &[String
                     if r != expect[i] && bad.is_empty() {
                         bad.push(BTreeSet::from([format!("{}:{}", i, r)]));
                     }
+                    done.fetch_add(1, Ordering::SeqCst);
                 }
                 cycles.fetch_add(1, Ordering::Relaxed);
                 if cycles.load(Ordering::Relaxed) % 64 == 0 {
                     log.lock().unwrap().clear();
                 }
             }
-            bad
+            (bad, Windows::new())
         }));
     }
     for prog in readers {
-        let (reg, log, stop, go, reads, keys, prog) = (real.reg.clone(), real.log.clone(), stop.clone(), go.clone(), reads.clone(), keys.clone(), prog.clone());
+        let (reg, log, stop, go, reads, keys, prog, done, clen) = (real.reg.clone(), real.log.clone(), stop.clone(), go.clone(), reads.clone(), keys.clone(), prog.clone(), done.clone(), cycle.len());
         joins.push(std::thread::spawn(move || {
             let mut seen: Vec<BTreeSet<String>> = prog.iter().map(|_| BTreeSet::new()).collect();
             while !go.load(Ordering::Acquire) {
                 std::hint::spin_loop();
             }
             let mut n = 0usize;
+            let mut windows = Windows::new();
+            let mut cur: Vec<String> = Vec::with_capacity(prog.len());
             while !stop.load(Ordering::Acquire) {
+                // a pass over the program that starts and ends with the same number of completed calls of the
+                // cycling thread lies inside ONE of its calls: at most that one call takes effect meanwhile
+                let c1 = done.load(Ordering::SeqCst);
+                cur.clear();
                 for (i, op) in prog.iter().enumerate() {
                     let a = real_apply(&reg, &log, 0, *op, &keys, &[9]);
                     if !seen[i].contains(&a) {
-                        seen[i].insert(a);
+                        seen[i].insert(a.clone());
+                    }
+                    cur.push(a);
+                }
+                let c2 = done.load(Ordering::SeqCst);
+                if c1 == c2 && windows.len() < 48 {
+                    let w = (c1 % clen, cur.clone());
+                    if !windows.contains(&w) {
+                        windows.insert(w);
                     }
                 }
                 n += 1;
@@ -1140,14 +1161,14 @@ fn run_loop(setup: &[EOp], cycle: &[EOp], readers: &[Vec<EOp>], expect: &[String
                 }
             }
             reads.fetch_add(n, Ordering::Relaxed);
-            seen
+            (seen, windows)
         }));
     }
     go.store(true, Ordering::Release);
     std::thread::sleep(budget);
     stop.store(true, Ordering::Release);
     let t0 = Instant::now();
-    let mut res = LoopResult { mutator_bad: None, final_digest: String::new(), answers: Vec::new(), cycles: 0, reads: 0, stuck: false };
+    let mut res = LoopResult { windows: Vec::new(), mutator_bad: None, final_digest: String::new(), answers: Vec::new(), cycles: 0, reads: 0, stuck: false };
     for (i, j) in joins.into_iter().enumerate() {
         while !j.is_finished() {
             if t0.elapsed() > Duration::from_secs(60) {
@@ -1157,9 +1178,10 @@ fn run_loop(setup: &[EOp], cycle: &[EOp], readers: &[Vec<EOp>], expect: &[String
             }
             std::thread::sleep(Duration::from_millis(1));
         }
-        let seen = j.join().unwrap_or_default();
+        let (seen, wins) = j.join().unwrap_or_default();
         if i > 0 {
             res.answers.push(seen);
+            res.windows.push(wins);
         } else if let Some(b) = seen.first().and_then(|x| x.iter().next()) {
             let (i, r) = b.split_once(':').unwrap_or(("0", ""));
             res.mutator_bad = Some((i.parse().unwrap_or(0), r.to_string()));
@@ -1766,7 +1788,12 @@ fn exec(out: &mut Out, se: &mut Sess, cfg: &Cfg, line: &str) -> (String, String,
                 .enumerate()
                 .map(|(ri, seen)| {
                     let codes: Vec<char> = w[4 + ri].chars().collect();
-                    seen.iter().enumerate().map(|(i, set)| format!("{}={}", codes[i], set.iter().cloned().collect::<Vec<_>>().join("|"))).collect::<Vec<_>>().join(";")
+                    let mut t = seen.iter().enumerate().map(|(i, set)| format!("{}={}", codes[i], set.iter().cloned().collect::<Vec<_>>().join("|"))).collect::<Vec<_>>().join(";");
+                    if !res.windows[ri].is_empty() {
+                        t.push_str(";@");
+                        t.push_str(&res.windows[ri].iter().map(|(i, a)| format!("{}:{}", i, a.join("&"))).collect::<Vec<_>>().join("|"));
+                    }
+                    t
                 })
                 .collect();
             let full = format!("{} :: {}", head, toks.join(" "));
@@ -1783,6 +1810,25 @@ fn exec(out: &mut Out, se: &mut Sess, cfg: &Cfg, line: &str) -> (String, String,
                         }
                     }
                 }
+            }
+            // windowed passes: all answers of the pass come from the state before the in-flight call or, from
+            // some point on, from the state after it
+            let mut bad_win: Option<String> = None;
+            for (prog, wins) in readers.iter().zip(res.windows.iter()) {
+                for (i, answers) in wins {
+                    total += 1;
+                    let (before, after) = (&states[*i], &states[(*i + 1) % states.len().max(1)]);
+                    let after = if *i + 1 < states.len() { &states[*i + 1] } else { after };
+                    let from = |st: &Spec, op: EOp| spec_apply(&mut st.clone(), 0, op).unwrap_or_default();
+                    let ok = (0..=answers.len()).any(|j| prog.iter().zip(answers.iter()).enumerate().all(|(q, (op, a))| *a == from(if q < j { before } else { after }, *op)));
+                    if !ok && bad_win.is_none() {
+                        bad_win = Some(format!("during call {} of the cycle ({:?}) one pass of {:?} answered {:?}: neither the state before that call, nor the state after it, nor a switch from one to the other gives these answers", i, cycle[*i], prog, answers));
+                    }
+                }
+            }
+            if let (None, Some(d)) = (&bad_ans, &bad_win) {
+                out.oracle_fail("peers.loop.torn", &format!("while one thread cycles `{}` from `{}`: {}", w[3], w[2], d), &[full.clone()]);
+                return (full, format!("{} INADMISSIBLE", idx), true);
             }
             match bad_ans {
                 Some(d) => {
@@ -1856,13 +1902,38 @@ fn sigs_of(ops: &[String], cfg: &Cfg, scratch: &std::path::Path) -> Vec<String> 
     text.lines().filter_map(|l| serde_json::from_str::<serde_json::Value>(l).ok()).filter_map(|v| v.get("sig").and_then(|s| s.as_str()).map(|s| s.to_string())).collect()
 }
 
+/// A removal is kept only if the shorter history fails sixteen times out of sixteen: some failures depend on the
+/// per-map hash seed, and a replay that reproduces half of the time is a poor replay.
+fn still_fails(cand: &[String], sig: &str, cfg: &Cfg, scratch: &std::path::Path) -> bool {
+    (0..16).all(|_| sigs_of(cand, cfg, scratch).iter().any(|s| s == sig))
+}
+
 /// Greedy one-at-a-time removal (from the end), repeated until no single removal keeps the failure.
-fn shrink_history(ops: &[String], sig: &str, cfg: &Cfg, scratch: &std::path::Path) -> Vec<String> {
+fn shrink_history(ops: &[String], sig: &str, cfg: &Cfg, scratch: &std::path::Path, deadline: Instant) -> Vec<String> {
     let mut cur: Vec<String> = ops.to_vec();
     if cur.len() > 2000 || !sigs_of(&cur, cfg, scratch).iter().any(|s| s == sig) {
         return cur;
     }
     let t0 = Instant::now();
+    // first whole chunks (long runs of identical lines shrink quickly that way), then single lines
+    for div in [2usize, 4, 8, 16, 32, 64] {
+        let chunk = (cur.len() / div).max(2);
+        let mut i = cur.len();
+        while i > 1 {
+            let lo = i.saturating_sub(chunk).max(1);
+            if !cur[lo..i].iter().any(|l| l.starts_with("reset ")) {
+                let mut cand = cur.clone();
+                cand.drain(lo..i);
+                if still_fails(&cand, sig, cfg, scratch) {
+                    cur = cand;
+                }
+            }
+            i = lo;
+            if t0.elapsed() > Duration::from_secs(6) || Instant::now() > deadline {
+                return cur;
+            }
+        }
+    }
     loop {
         let mut changed = false;
         let mut i = cur.len();
@@ -1873,11 +1944,11 @@ fn shrink_history(ops: &[String], sig: &str, cfg: &Cfg, scratch: &std::path::Pat
             }
             let mut cand = cur.clone();
             cand.remove(i);
-            if sigs_of(&cand, cfg, scratch).iter().any(|s| s == sig) {
+            if still_fails(&cand, sig, cfg, scratch) {
                 cur = cand;
                 changed = true;
             }
-            if t0.elapsed() > Duration::from_secs(20) {
+            if t0.elapsed() > Duration::from_secs(8) || Instant::now() > deadline {
                 return cur;
             }
         }
@@ -1894,6 +1965,8 @@ fn shrink_oracle_file(dir: &std::path::Path, cfg: &Cfg) {
     if text.trim().is_empty() {
         return;
     }
+    // all shrinking together gets 25 s: a broken tree must report within a couple of minutes
+    let deadline = Instant::now() + Duration::from_secs(25);
     let mut done: HashSet<String> = HashSet::new();
     let mut outl = Vec::new();
     for l in text.lines() {
@@ -1902,7 +1975,7 @@ fn shrink_oracle_file(dir: &std::path::Path, cfg: &Cfg) {
         let ops: Vec<String> = v.get("ops").and_then(|o| o.as_array()).map(|a| a.iter().filter_map(|x| x.as_str().map(|s| s.to_string())).collect()).unwrap_or_default();
         let explicit = ops.first().map(|o| o.starts_with("reset ")).unwrap_or(false) && !sig.contains("stuck");
         if explicit && done.insert(sig.clone()) && done.len() <= 6 {
-            let small = shrink_history(&ops, &sig, cfg, &dir.join("shrink"));
+            let small = shrink_history(&ops, &sig, cfg, &dir.join("shrink"), deadline);
             v["ops"] = serde_json::json!(small);
         }
         outl.push(v.to_string());
@@ -2094,7 +2167,15 @@ fn gen_history(rng: &mut Rng, n: &mut usize, len: usize, thorough: bool, ops: &m
                 2 => ops.push(format!("mint {}", i)),
                 3 => ops.push(format!("hconn {} {}", i, id)),
                 4 => ops.push(format!("dbg {} {}", i, id)),
-                5 => ops.push(format!("dbgreg {}", i)),
+                5 => {
+                    // Debug of the registry, or a caller that panics inside a lookup while holding the lock
+                    if rng.chance(1, 2) {
+                        ops.push(format!("dbgreg {}", i));
+                    } else {
+                        ops.push(format!("poison {}", i));
+                        mutated = true; // (nothing changes; ask for a dump)
+                    }
+                }
                 6 => ops.push(format!("ctx {} new {} {}", i, id, m)),
                 7 => ops.push(format!("ctx {} detached {}", i, m)),
                 8 => {
@@ -2228,6 +2309,10 @@ fn gen_runs(rng: &mut Rng, n: &mut usize, thorough: bool, force: Option<usize>, 
         ops.push(format!("alias {} 5 {} via={}", next(n), khex(i), i % 4));
     }
     ops.push(format!("aliases {} 5", next(n)));
+    // a caller panics inside a lookup while the lock is held: the N keys must still be listed in assignment order
+    ops.push(format!("poison {}", next(n)));
+    ops.push(format!("aliases {} 5", next(n)));
+    ops.push(format!("keyfor {} 5", next(n)));
     ops.push(format!("alias {} 6 {} via=0", next(n), khex(k / 2)));
     ops.push(format!("alias {} 6 {} via=0", next(n), khex(k - 1)));
     ops.push(format!("dump {}", next(n)));
@@ -2413,6 +2498,13 @@ fn targeted_loops() -> Vec<&'static str> {
         "ab gda A D w",
         "abg dag p A s",
         "abgh jdaghea pq sA D",
+        // remove vs. re-insert of the same id + alias: passes over (get, aliases_for / key_for / get_by) pairs that
+        // fall inside one call must be explainable by that one call
+        "a gda xs xA sx",
+        "a ghda xs sA xq",
+        "ag dag xs xp As",
+        "abg dagj xs yt pD",
+        "abgk daghejk xs yt AB",
         "abgh jdageb pq s A",
     ]
 }
@@ -2547,6 +2639,22 @@ fn main() {
             gen_runs(&mut rng, &mut n, thorough, f, &mut ops);
         }
         gen_pairs(&mut rng, &mut n, &mut ops);
+        {
+            let mut l: Vec<String> = vec!["reset {} via=0".into(), "ins {} 1 1 ok".into(), "ins {} 2 2 ok".into()];
+            for k in ["m", "c", "x", "a", "q", "e", "z", "b", "k", "y", "d", "w"] {
+                l.push(format!("alias {{}} 1 {} via=1", hex(k.as_bytes())));
+            }
+            for k in ["p4", "p1", "p3", "p2"] {
+                l.push(format!("alias {{}} 2 {} via=0", hex(k.as_bytes())));
+            }
+            for _ in 0..2 {
+                l.extend(["poison {}".to_string(), "aliases {} 1".into(), "aliases {} 2".into(), "keyfor {} 1".into(), "keyfor {} 2".into(), "dump {}".into()]);
+            }
+            for x in l {
+                n += 1;
+                ops.push(x.replace("{}", &n.to_string()));
+            }
+        }
         for _ in 0..hist {
             let len = rng.range(10, maxlen) as usize;
             gen_history(&mut rng, &mut n, len, thorough, &mut ops);
